@@ -658,6 +658,20 @@ theorem c13_shared_with_daemon_calls_return_results (cfg : Cfg)
   exact callOps_plain _ c13_daemon_feeds_one_plain_item_table.2.2.1 call
     (fun o ho => happ o (ho ▸ hcall)) op hop
 
+/-- The same from any number of threads, at the level of atomic actions (whole `ingest` / `autophagy` calls under the
+    lock, `digest` as its locked pop and one loop iteration per popped item, every interleaving, daemon cycles being
+    `ingest` actions like any other): as long as no `ingest` hands over a timezone-aware `created_at`, at EVERY reachable
+    point no queued item is timezone-aware, so an `autophagy()` call made at that point — by whichever thread — returns
+    its count and never raises. -/
+theorem c13_autophagy_returns_result_concurrent (cfg : Cfg) (hre : cfg.reent = (reentOf lockKind == some true))
+    (as : List Act) (hp : ∀ o, Act.op o ∈ as → o.plain = true) :
+    (∀ it ∈ (runActs cfg init as).queue, it.tz = false) ∧
+    (autophagy cfg (runActs cfg init as)).2.normal = true := by
+  have : (reentOf lockKind == some true) = true := by decide
+  rw [this] at hre
+  have h := (runActs_noTz cfg hre as init rfl init_noTz hp).1
+  exact ⟨h, autophagy_normal_of_noTz cfg _ h⟩
+
 /-! ### Non-vacuity: concrete configurations and histories meeting the hypotheses, exercising every fate -/
 
 /-- digester raises on content 0, returns a key otherwise; `on_toxic` raises on content 0 -/
@@ -737,5 +751,19 @@ example :
   intro op h
   simp only [callsEx, List.mem_cons, Call.app.injEq, List.not_mem_nil, or_false, reduceCtorEq, false_or] at h
   rcases h with h | h | h | h <;> subst h <;> rfl
+
+private def actsEx : List Act :=
+  [.op (.ingest 1 .expired 1 .now), .pop 1 (some 1), .op (.ingest 2 .toxic 1 (.at (-5))), .iter 1, .op (.advance 20)]
+
+/-- an interleaving meeting the hypothesis of `c13_autophagy_returns_result_concurrent` (a digest call of thread 1 in
+    flight around an ingest with an explicit naive timestamp in the past): the `autophagy()` made there removes the
+    remaining item and returns 1 -/
+example :
+    (∀ o, Act.op o ∈ actsEx → o.plain = true) ∧
+    (match (autophagy cfgEx (runActs cfgEx init actsEx)).2 with | .removed n => n | _ => 99) = 1 := by
+  refine ⟨?_, by decide⟩
+  intro o h
+  simp only [actsEx, List.mem_cons, Act.op.injEq, List.not_mem_nil, or_false, reduceCtorEq, false_or] at h
+  rcases h with h | h | h <;> subst h <;> rfl
 
 end Operon.Lysosome
